@@ -252,6 +252,38 @@ func (s *sut) apply(ev event) (err error) {
 	return err
 }
 
+// releasesForeign: the event makes name release a member (removed from its member list, or
+// name is deleted) whose Parent pointer names a different HyperNode
+func releasesForeign(m api.HyperNodeInfoMap, ev event) bool {
+	var name string
+	keep := map[int64]bool{}
+	switch ev.kind {
+	case 0:
+		name = hnName(ev.obj.name)
+		keep = childSet(ev.obj.members)
+	case 1:
+		name = hnName(ev.id)
+	default:
+		return false
+	}
+	old, ok := m[name]
+	if !ok || old.HyperNode == nil {
+		return false
+	}
+	for _, mem := range old.HyperNode.Spec.Members {
+		if mem.Type == topologyv1alpha1.MemberTypeHyperNode && mem.Selector.ExactMatch != nil {
+			c := mem.Selector.ExactMatch.Name
+			if keep[hnID(c)] {
+				continue
+			}
+			if ci, ok := m[c]; ok && ci.Parent != "" && ci.Parent != name {
+				return true
+			}
+		}
+	}
+	return false
+}
+
 // tierInverted: a stored HyperNode claims a stored member whose tier is not below its own
 func tierInverted(m api.HyperNodeInfoMap) bool {
 	for _, info := range m {
@@ -385,6 +417,7 @@ type flags struct {
 	selStale       bool // D2: a node event the cache does not propagate to a HyperNode whose selector matches the node
 	deletedClaimed bool // D5: a HyperNode was deleted while another one still listed it as a member
 	failedDelete   bool // D6: a DeleteHyperNode returned an error (the entry stays, marked as being deleted)
+	foreignReset   bool // D9: an update / delete released a member whose Parent pointer named another HyperNode
 	tierInversion  bool // D7: at some point a stored HyperNode claimed a member whose tier is not below its own
 }
 
@@ -444,8 +477,12 @@ func (s *sut) claimedBySomeone(x int64) bool {
 func runHistory(w *world, evs []event, obs func(i int, s *sut)) (s *sut, fl flags) {
 	s = newSut(w, w.nodes)
 	for i, ev := range evs {
-		if freesMany(s.hni.HyperNodes(), ev) {
+		before := s.hni.HyperNodes()
+		if freesMany(before, ev) {
 			fl.amb = true
+		}
+		if releasesForeign(before, ev) {
+			fl.foreignReset = true
 		}
 		if (ev.kind == 2 || ev.kind == 3) && s.selStale(ev.id, ev.kind == 3) {
 			fl.selStale = true
@@ -636,6 +673,8 @@ func run(sel int, in []int64) []int64 {
 		return out
 	case 2:
 		return runPlacement(in)
+	case 3:
+		return runTrace(in)
 	}
 	panic("unknown selector")
 }
@@ -726,25 +765,28 @@ func laws(sel int, in, got []int64, law func(lsel int, lin []int64, sig string))
 		const d5 = "C14-D5-double-claim-undetected-after-child-delete"
 		const d6 = "C14-D6-failed-delete-leaves-entry-marked-deleting"
 		const d7 = "C14-D7-bad-membership-invisible-under-tier-inversion"
+		const d9 = "C14-D9-release-resets-parent-pointer-of-member-adopted-by-another"
 		pick := func(f flags, order ...string) string {
 			for _, sg := range order {
 				switch {
-				case sg == d2 && f.selStale, sg == d5 && f.deletedClaimed, sg == d6 && f.failedDelete, sg == d7 && f.tierInversion:
+				case sg == d2 && f.selStale, sg == d5 && f.deletedClaimed, sg == d6 && f.failedDelete, sg == d7 && f.tierInversion, sg == d9 && f.foreignReset:
 					return sg
 				}
 			}
 			return ""
 		}
 		both := flags{selStale: fl.selStale || ffl.selStale, failedDelete: fl.failedDelete || ffl.failedDelete,
-			tierInversion: fl.tierInversion || ffl.tierInversion}
-		law(101, cat(encEnv(w, nodes), eo, incr), pick(fl, d2, d6, d7))
-		law(111, cat(encEnv(w, nodes), eo, incr), pick(fl, d6, d7))
-		law(102, cat(eo, incr, fresh), pick(both, d2, d6, d7))
-		law(112, cat(eo, incr, fresh), pick(both, d6, d7))
+			tierInversion: fl.tierInversion || ffl.tierInversion, foreignReset: fl.foreignReset || ffl.foreignReset}
+		law(101, cat(encEnv(w, nodes), eo, incr), pick(fl, d2, d6, d7, d9))
+		law(111, cat(encEnv(w, nodes), eo, incr), pick(fl, d6, d7, d9))
+		law(102, cat(eo, incr, fresh), pick(both, d2, d6, d7, d9))
+		law(112, cat(eo, incr, fresh), pick(both, d6, d7, d9))
 		law(105, cat(eo, incr), pick(fl, d6))
 		law(106, cat(eo, incr), pick(fl, d6, d7, d5))
-		law(101, cat(encEnv(w, nodes), eo, fresh), pick(ffl, d2, d6, d7))
+		law(101, cat(encEnv(w, nodes), eo, fresh), pick(ffl, d2, d6, d7, d9))
 		law(106, cat(eo, fresh), pick(ffl, d6, d7, d5))
+	case 3:
+		traceLaws(law)
 	case 2:
 		p := last
 		if p == nil {
@@ -766,6 +808,9 @@ func laws(sel int, in, got []int64, law func(lsel int, lin []int64, sig string))
 		}
 	}
 }
+
+var ntaName = nta.PluginName
+var ntaNew = nta.New
 
 func main() {
 	vh.Harness{Run: run, Laws: laws, Gen: gen}.Main()
